@@ -1,2 +1,26 @@
 import SaramaVerif.Driver.ProducerTrace
-def main : IO Unit := Driver.ProducerTrace.main
+import SaramaVerif.Driver.PipelineTrace
+/-
+  C02 model driver: the producer-trace protocol of Driver/ProducerTrace.lean, plus the `sys …` lines that replay
+  the run through the composed system model Model.Pipeline (Driver/PipelineTrace.lean).
+-/
+namespace Driver.C02
+
+structure St where
+  tr : Driver.ProducerTrace.DS
+  sys : Driver.PipelineTrace.PS := {}
+
+def step (s : St) (t : List String) : St × String :=
+  match t with
+  | "sys" :: rest =>
+    let r := Driver.PipelineTrace.step s.sys rest
+    ({ s with sys := r.1 }, r.2)
+  | _ =>
+    let r := Driver.ProducerTrace.step s.tr t
+    ({ s with tr := r.1 }, r.2)
+
+end Driver.C02
+
+def main : IO Unit := do
+  Driver.loop (← IO.getStdin) (← IO.getStdout) Driver.C02.step
+    { tr := { st := Model.Producer.init { retryMax := 0, icepts := 0, idem := false }, failed := false } }
